@@ -224,7 +224,17 @@ func TestVerifC06(t *testing.T) {
 				{K: "api", B: 0, SignAs: 0, R: 1, Api: "delete"},
 				{K: "connect", C: 3}, {K: "hello", C: 3, Ht: "resume", Id: &hdIdRef{T: "priv", C: 2}},
 				{K: "msg", C: 3, To: &hdRecipient{T: "room"}, Tag: 7}}
-			return []*hdCase{{Id: 0, Mode: 1, Ops: ops}, {Id: 1, Mode: 1, Ops: gone}}
+			// chat-refresh notices over two disconnect/resume cycles: merged into one per cycle, never lost
+			cr := func(tag int) hdOp { return hdOp{K: "msg", C: 1, To: hdToSession(2), Tag: tag} }
+			chat := []hdOp{{K: "connect", C: 1}, {K: "connect", C: 2}, {K: "hello", C: 1, B: 0, U: 1}, {K: "hello", C: 2, B: 0, U: 2},
+				hdJoinOp(1, 1, 1), hdJoinOp(2, 1, 2), {K: "drop", C: 2},
+				cr(hdChatRefreshTag), cr(301), cr(hdChatRefreshTag), cr(302), cr(hdChatRefreshTag),
+				{K: "connect", C: 3}, {K: "hello", C: 3, Ht: "resume", Id: &hdIdRef{T: "priv", C: 2}},
+				{K: "drop", C: 3},
+				{K: "msg", C: 1, To: hdToSession(3), Tag: 303}, {K: "msg", C: 1, To: hdToSession(3), Tag: hdChatRefreshTag}, {K: "msg", C: 1, To: hdToSession(3), Tag: hdChatRefreshTag},
+				{K: "connect", C: 4}, {K: "hello", C: 4, Ht: "resume", Id: &hdIdRef{T: "priv", C: 3}},
+				{K: "msg", C: 1, To: hdToSession(4), Tag: hdChatRefreshTag}}
+			return []*hdCase{{Id: 0, Mode: 1, Ops: ops}, {Id: 1, Mode: 1, Ops: gone}, {Id: 2, Mode: 1, Ops: chat}}
 		}})
 }
 
